@@ -230,8 +230,13 @@ def check_banded(c1, c2, mi, gi, band, local):
                 return f"pair ({x},{y}) outside the band {band}"
         rec = _score_cols(cols, c1, c2, mat, gap)
         if affine and abs(int(aln.score)) >= 2 ** 30:
-            # known finding C09-banded-affine-overflow: the int32 'negative infinity' sentinel of the affine tables wraps
-            return "KNOWN:affine-overflow"
+            # the int32 'negative infinity' sentinel of the affine tables wrapped: known finding C09-banded-affine-overflow
+            # exactly when opening + extension together exceed what the sentinel was corrected by (one penalty and the
+            # lowest score); for any other input it is reported
+            min_s = min(min(r) for r in mat)
+            if gap[0] + gap[1] < min(gap) + min(0, min_s):
+                return "KNOWN:affine-overflow"
+            return f"score {aln.score} for the trace {cols} (int32 wrap-around) with gap {gap}, lowest score {min_s} (band {band}, local={local})"
         if rec != aln.score:
             if not local and _boundary_gap_mislabelled(cols, c1, c2, mat, gap, int(aln.score)):
                 return "KNOWN:boundary-gap"
